@@ -1274,10 +1274,12 @@ struct IdxMachine
 };
 
 // ---------------------------------------------------------------------------------------------------------
-// NameSet: names are "n<id>"
+// NameSet: the name with identifier id (0..11) has id+1 characters ('a' + id % 3), so that names of different
+// lengths move through the string memory; every string read back is printed as it is (sanitised)
 // ---------------------------------------------------------------------------------------------------------
 struct NameMachine
 {
+   static const int NIDS = 12;
    NameSet* s = nullptr;
    ~NameMachine()
    {
@@ -1285,11 +1287,16 @@ struct NameMachine
    }
    static std::string nm(int id)
    {
-      return "n" + std::to_string(id);
+      return std::string((size_t)(id + 1), (char)('a' + id % 3));
    }
-   static int idOf(const char* p)
+   static std::string show(const char* p)
    {
-      return atoi(p + 1);
+      std::string o;
+
+      for(int k = 0; p[k] != '\0' && k < 40; k++)
+         o.push_back((p[k] >= 'a' && p[k] <= 'z') ? p[k] : '?');
+
+      return o.empty() ? "_" : o;
    }
    std::string init(const Toks& t)
    {
@@ -1299,26 +1306,41 @@ struct NameMachine
    std::string dump()
    {
       std::ostringstream o;
-      o << "num=" << s->num() << " max=" << s->max() << " size=" << s->size() << " names=";
+      o << "num=" << s->num() << " max=" << s->max() << " size=" << s->size() << " mem=" << s->memSize() << "/" << s->memMax()
+        << " names=";
 
       for(int n = 0; n < s->num(); n++)
-         o << idOf((*s)[n]) << ",";
+         o << show((*s)[n]) << ",";
 
       o << " keys=";
 
       for(int n = 0; n < s->num(); n++)
          o << s->key(n).idx << ",";
 
+      // by key: every slot of the key array
+      o << " bykey=";
+
+      for(int i = 0; i < s->size(); i++)
+      {
+         DataKey k(0, i);
+
+         if(s->has(k))
+            o << s->number(k) << ":" << show((*s)[k]) << ",";
+         else
+            o << "x,";
+      }
+
+      // by name: every name ever used
       o << " look=";
 
-      for(int id = 0; id < 8; id++)
+      for(int id = 0; id < NIDS; id++)
       {
          std::string name = nm(id);
 
          if(s->has(name.c_str()))
          {
             DataKey k = s->key(name.c_str());
-            o << s->number(name.c_str()) << ":" << k.idx << ":" << idOf((*s)[k]) << ",";
+            o << s->number(name.c_str()) << ":" << k.idx << ":" << show((*s)[k]) << ",";
          }
          else
             o << "-:" << s->number(name.c_str()) << ":" << s->key(name.c_str()).idx << ",";
